@@ -944,7 +944,12 @@ def energy_oracle(lat, beam):
         out = seg.track(b)
     except Exception as ex:  # inputs the code rejects (e.g. SpaceChargeKick on a ParameterBeam, E + dE <= 0)
         return "skip:exception_" + type(ex).__name__, []
-    leaves = real_flat(lat)
+    return accounting(real_flat(lat), b, out)
+
+
+def accounting(leaves, b, out):
+    """the energy / charge / survival clauses for one tracked beam, given the flat element specs the beam went through"""
+    import cheetah
     gains = [l["kw"]["voltage"] * math.cos(math.radians(l["kw"]["phase"])) for l in leaves if l["cls"] == "Cavity"]
     e_in, e_out = float(b.energy), float(out.energy)
     prob = []
@@ -1018,6 +1023,195 @@ def energy_stage(run, n):
     return bad
 
 
+# ---------------------------------------------------------------- histories on ONE lattice object: track, assign, track again
+HIST_V = [0.0, 0.0, 1e6, 5e6, -1e6, 1.234e7]
+HIST_PH = [0.0, 30.0, -20.0, 180.0, 45.0]
+
+
+def gen_history_case(rng):
+    """A lattice with nested SKIPPABLE sub-segments directly followed by cavities (off or on) and apertures, anchored by elements that
+    are not skippable, and a sequence of assignments (cavity voltages / phases, activity flags, aperture sizes) applied to the one
+    lattice object between tracks.  Names are unique; steps address elements by name."""
+    ctr = [0]
+
+    def nm(p):
+        ctr[0] += 1
+        return f"{p}{ctr[0]}"
+
+    def cav(v=None):
+        return {"cls": "Cavity", "name": nm("cav"), "kw": {"length": rng.choice([0.5, 1.0]), "voltage": rng.choice(HIST_V) if v is None else v,
+                                                          "phase": rng.choice(HIST_PH), "frequency": 1.3e9}}
+
+    def ap(active=None):
+        return {"cls": "Aperture", "name": nm("ap"), "kw": {"x_max": rng.choice([2e-4, 5e-4, 1.0, INF]), "y_max": rng.choice([2e-4, 5e-4, 1.0, INF]),
+                                                          "shape": rng.choice(["rectangular", "elliptical"]),
+                                                          "is_active": (rng.random() < 0.5) if active is None else active}}
+
+    def passive():
+        k = rng.randrange(6)
+        if k == 0:
+            return {"cls": "Drift", "name": nm("d"), "kw": {"length": rng.choice([0.3, 0.5, 1.0]), "tracking_method": "cheetah"}}
+        if k == 1:
+            return {"cls": "Quadrupole", "name": nm("q"), "kw": {"length": 0.2, "k1": rng.choice([2.0, -2.0, 0.0]), "tracking_method": "cheetah"}}
+        if k == 2:
+            return {"cls": "Marker", "name": nm("m"), "kw": {}}
+        if k == 3:
+            return {"cls": "BPM", "name": nm("bpm"), "kw": {"is_active": False}}
+        if k == 4:
+            return cav(0.0)
+        return ap(False)
+
+    def sub(depth):
+        es = [passive() for _ in range(rng.randrange(1, 4))]
+        if depth > 0 and rng.random() < 0.3:
+            es.insert(rng.randrange(len(es) + 1), sub(depth - 1))
+        return {"cls": "Segment", "name": nm("sub"), "es": es}
+    top = []
+    for _ in range(rng.randrange(1, 4)):
+        r = rng.random()
+        if r < 0.35:
+            top.append(cav(rng.choice([1e6, 5e6, 2e7])))
+        elif r < 0.55:
+            top.append(ap(True))
+        elif r < 0.7:
+            top.append({"cls": "BPM", "name": nm("bpm"), "kw": {"is_active": True}})
+        top.append(sub(1))
+        for _ in range(rng.randrange(1, 4)):
+            r = rng.random()
+            top.append(cav() if r < 0.55 else ap() if r < 0.8 else passive())
+    lat = {"cls": "Segment", "name": "line", "es": top}
+    settable = []
+    for l in flat_leaves(lat):
+        if l["cls"] == "Cavity":
+            settable += [(l["name"], "voltage")] * 3 + [(l["name"], "phase")]
+        elif l["cls"] == "Aperture":
+            settable += [(l["name"], "is_active"), (l["name"], "x_max"), (l["name"], "y_max")]
+        elif l["cls"] == "BPM":
+            settable += [(l["name"], "is_active")]
+    steps = []
+    for _ in range(rng.randrange(2, 5)):
+        step = []
+        for name, attr in rng.sample(settable, min(len(settable), rng.randrange(1, 4))):
+            if attr == "voltage":
+                v = rng.choice([1e6, 5e6, -1e6, 1.234e7, 0.0])
+            elif attr == "phase":
+                v = rng.choice(HIST_PH + [round(rng.uniform(-180, 180), 3)])
+            elif attr == "is_active":
+                v = rng.random() < 0.6
+            else:
+                v = rng.choice([2e-4, 5e-4, 1.0, INF])
+            step.append({"name": name, "attr": attr, "value": v})
+        steps.append(step)
+    beams = [realgen.gen_particle_beam(rng, n=rng.choice([3, 5]), energy=1e8), realgen.gen_parameter_beam(rng, energy=1e8)]
+    return lat, steps, beams
+
+
+def _structure(e):
+    import cheetah
+    if isinstance(e, cheetah.Segment):
+        return [str(e.name), "Segment", [_structure(c) for c in e.elements]]
+    return [str(e.name), type(e).__name__]
+
+
+def _spec_structure(s):
+    if s["cls"] == "Segment":
+        return [s["name"], "Segment", [_spec_structure(c) for c in s["es"]]]
+    return [s["name"], s["cls"]]
+
+
+def run_history(lat, steps, beams):
+    """Apply the history to ONE lattice object.  After every track: the closed-form energy sum / charge / survival clauses with the
+    CURRENT settings, the same beam through a FRESHLY built lattice with the current settings, and `tracking does not change the
+    lattice` (nesting structure, flattened names, total length).  Returns (problems, number of tracks compared)."""
+    spec = copy.deepcopy(lat)
+    seg = realgen.build(spec)
+    index = {}
+
+    def walk(e, s):
+        index[s["name"]] = (e, s)
+        if s["cls"] == "Segment":
+            for c, cs in zip(e.elements, s["es"]):
+                walk(c, cs)
+    walk(seg, spec)
+
+    def lattice_problems(when):
+        out = []
+        try:
+            want, got = _spec_structure(spec), _structure(seg)
+            if got != want:
+                out.append(f"{when}: the nesting structure of the lattice object changed: {json.dumps(got)[:400]} expected {json.dumps(want)[:400]}")
+            names = [e.name for e in seg.flattened().elements]
+            if names != [l["name"] for l in flat_leaves(spec)]:
+                out.append(f"{when}: flattened element names {names} expected {[l['name'] for l in flat_leaves(spec)]}")
+            tot = sum(float(l["kw"].get("length", 0.0)) for l in flat_leaves(spec))
+            if abs(float(seg.length) - tot) > 1e-12 * max(1.0, tot):
+                out.append(f"{when}: total length {float(seg.length)!r} expected {tot!r}")
+        except Exception as ex:  # noqa
+            out.append(f"{when}: inspecting the lattice object raised {ex!r}"[:300])
+        return out
+    prob = lattice_problems("after construction")
+    n_tracks = 0
+    for k, step in enumerate([[]] + list(steps)):
+        for a in step:
+            if a["name"] not in index:
+                continue             # element dropped by shrinking
+            obj, node = index[a["name"]]
+            node["kw"][a["attr"]] = a["value"]
+            setattr(obj, a["attr"], torch.tensor(a["value"], dtype=DT) if a["attr"] in realgen.TENSOR_KW else a["value"])
+        for beam in beams:
+            when = f"track {k} ({beam['type']} beam, after {k} assignment steps)"
+            b = realgen.build_beam(beam)
+            try:
+                fresh = realgen.build(spec).track(b)
+            except Exception:  # noqa -- settings the code rejects (E + dE <= 0 ...): unspecified
+                continue
+            try:
+                out = seg.track(b)
+            except Exception as ex:  # noqa
+                prob.append(f"{when}: the lattice object raised {ex!r} where a freshly built lattice with the same settings tracks"[:300])
+                continue
+            n_tracks += 1
+            st, p = accounting(flat_leaves(spec), b, out)
+            prob += [f"{when}: {x}" for x in p]
+            d = realgen.beams_close(out, fresh, rtol=1e-11, atol=1e-15)
+            if d:
+                prob.append(f"{when}: outgoing beam differs from the one of a freshly built lattice with the current settings: {d}; "
+                            f"energy {float(out.energy)!r} vs {float(fresh.energy)!r}")
+            prob += lattice_problems("after " + when)
+        if len(prob) > 12:
+            break
+    return prob, n_tracks
+
+
+def _hist_key(prob):
+    """what a shrunk history must still show: the energy clause if it failed, else the comparison with a fresh lattice, else anything"""
+    for key in ("energy out - in", "freshly built"):
+        if any(key in p for p in prob):
+            return key
+    return ""
+
+
+def history_stage(run, n):
+    bad = []
+    for _ in range(n):
+        lat, steps, beams = gen_history_case(run.rng)
+        prob, n_tracks = run_history(lat, steps, beams)
+        leaves = flat_leaves(lat)
+        run.add_case(["history", lat, steps], n_tracks >= 4)
+        run.count("history_tracks_compared", n_tracks)
+        run.count("history_steps_%d" % len(steps))
+        run.count("history_cavities_%d" % min(sum(1 for l in leaves if l["cls"] == "Cavity"), 5))
+        if any(a["attr"] == "voltage" and a["value"] != 0.0 and any(l["name"] == a["name"] and l["kw"]["voltage"] == 0.0 for l in leaves) for s in steps for a in s):
+            run.count("history_cavity_switched_on_after_a_track")
+        if prob:
+            bad.append({"kind": "history", "lattice": lat, "steps": steps, "beams": beams, "problems": prob[:12],
+                        "relation": "after every track of a history (track, assign voltages / phases / activity flags / aperture sizes, track again) on ONE lattice "
+                                    "object: energy out - in == sum V cos(phi) with the current settings, charges / particle number constant, survival in [0,1] and "
+                                    "non-increasing, the outgoing beam equals the one of a freshly built lattice with the current settings, and tracking leaves the "
+                                    "lattice (nesting, flattened names, total length) unchanged"})
+    return bad
+
+
 # ---------------------------------------------------------------- shrinking / verdict / replay
 def shrink_lattice(item, still_fails):
     lat = item["lattice"]
@@ -1086,6 +1280,8 @@ def recheck(item):
     if k == "real_lattice":
         st, prob = energy_oracle(item["lattice"], item["beam"])
         return prob
+    if k == "history":
+        return run_history(item["lattice"], item["steps"], item["beams"])[0]
     return []
 
 
@@ -1141,11 +1337,17 @@ def main(tier, replay=None):
     ap_fail = ap_fail + [len(ap_cases) + i for i in vap_fail]
     ap_cases = ap_cases + vap_cases
     ap_bad = ap_bad + vap_bad
+    # histories on one lattice object (after the older stages, which keep their random stream)
+    hist_bad = history_stage(run, 600 if thorough else 30)
+    hist_bad.sort(key=lambda it: (["energy out - in", "freshly built", ""].index(_hist_key(it["problems"])), len(json.dumps(it["lattice"]))))
     run.cov["tested_only"] = ["energy accounting / charge / survival invariants on lattices of all real element classes (float64, 1e-9 relative): "
                               "the Coq theorems cover them modulo the leaf contract, which is discharged in Coq only for the modelled classes",
                               "sigma_* (square root) is compared through its square",
                               "statistics other than mu_x, mu_px, var_x, sigma_x, sigma_xpx, total_charge, num_particles_survived are covered by the "
-                              "deleted-particles oracle only"]
+                              "deleted-particles oracle only",
+                              "histories on one lattice object (nested skippable sub-segments followed by cavities / apertures; track, assign voltages / phases / "
+                              "activity flags / aperture sizes, track again, 2-4 times): energy sum, charge and survival clauses after EVERY track with the current "
+                              "settings, equality with a freshly built lattice, and the lattice object's nesting / flattened names / length before and after"]
     for f in common.load_known_findings(PID):
         if f.get("status") == "known":
             prob = recheck(f["replay"])
@@ -1155,7 +1357,7 @@ def main(tier, replay=None):
                 run.cov["known_findings_not_reproduced"].append(f["id"])
 
     # ---- verdict
-    oracle_bad = ap_bad + par_bad + lat_bad + st_bad + real_bad
+    oracle_bad = ap_bad + par_bad + lat_bad + st_bad + real_bad + hist_bad
     if oracle_bad:
         seen = set()
         for item in oracle_bad:
@@ -1166,6 +1368,23 @@ def main(tier, replay=None):
                 beam = item["beam"]
                 item = shrink_lattice(item, lambda t: bool(recheck({"kind": item["kind"], "lattice": t, "beam": beam})))
                 item["problems"] = recheck(item)
+            if item["kind"] == "history":
+                full, key = item, _hist_key(item["problems"])
+
+                def still(it):
+                    return any(key in p for p in recheck(it))
+                for bm in item["beams"]:
+                    if len(item["beams"]) > 1 and still(dict(item, beams=[bm])):
+                        full = item = dict(item, beams=[bm])
+                        break
+                item = shrink_lattice(item, lambda t: still(dict(full, lattice=t)))
+                for j in range(len(item["steps"]) - 1, -1, -1):          # drop assignment steps that are not needed
+                    cand = dict(item, steps=item["steps"][:j] + item["steps"][j + 1:])
+                    if still(cand):
+                        item = cand
+                present = {l["name"] for l in flat_leaves(item["lattice"])}
+                item["steps"] = [[a for a in st if a["name"] in present] for st in item["steps"]]      # assignments to elements dropped above
+                item["problems"] = recheck(item)[:12]
             run.violation(item)
     elif ap_fail or lat_fail or st_fail:
         if ap_fail:
